@@ -207,6 +207,9 @@ func (o *vectorOperator) Next(ctx context.Context) ([]model.StepVector, error) {
 				continue
 			}
 
+			if err.manyToOne {
+				return nil, errors.New("multiple matches for labels: many-to-one matching must be explicit (group_left/group_right)")
+			}
 			var sampleID, duplicateSampleID labels.Labels
 			switch err.side {
 			case lhBinOpSide:
